@@ -270,7 +270,8 @@ fn rotate(
         _ => false, // Only case that can actually happen is (None, None)
     };
 
-    for i in (base..base + count - 1).rev() {
+    // `count` is at least 1 here; `base + count` itself may not fit in a u32
+    for i in (base..base + (count - 1)).rev() {
         let src = expand_env_vars(pattern.replace("{}", &i.to_string()));
         let dst = expand_env_vars(pattern.replace("{}", &(i + 1).to_string()));
 
